@@ -67,8 +67,13 @@ def r3_values_first(rep, facts):
     scal = lambda n: ('ctor', I + 'Value', (('ctor', V + 'Integer', (('elem', n),)),))
     inl = lambda dotted, kids: ('struct', 'toml_edit::inline_table::InlineTable', {'items': kids, 'dotted': dotted, 'implicit': False, 'preamble': ('opaque',), 'decor': ('opaque',), 'span': ('opaque',)})
     tab = lambda dotted, kids: ('struct', 'toml_edit::table::Table', {'items': kids, 'dotted': dotted, 'implicit': False, 'decor': ('opaque',), 'doc_position': ('opaque',), 'span': ('opaque',)})
-    items = ((key('a'), scal('a')), (key('dt'), ('ctor', I + 'Table', (tab(True, ((key('dt.x'), scal('dt.x')),)),))), (key('t'), ('ctor', I + 'Table', (tab(False, ((key('t.x'), scal('t.x')),)),))),
-             (key('di'), ('ctor', I + 'Value', (('ctor', V + 'InlineTable', (inl(True, ((key('di.x'), scal('di.x')),)),)),))),
+    ival = lambda t: ('ctor', I + 'Value', (('ctor', V + 'InlineTable', (t,)),))
+    # dotted tables nest: `dt.x`, `dt.sub.y` (a dotted table in a dotted table), `dt.di.y` (a dotted inline table in a dotted table), `di.x`, `di.sub.y`
+    dt_kids = ((key('dt.x'), scal('dt.x')), (key('dt.sub'), ('ctor', I + 'Table', (tab(True, ((key('dt.sub.y'), scal('dt.sub.y')),)),))),
+               (key('dt.di'), ival(inl(True, ((key('dt.di.y'), scal('dt.di.y')),)))))
+    di_kids = ((key('di.x'), scal('di.x')), (key('di.sub'), ival(inl(True, ((key('di.sub.y'), scal('di.sub.y')),)))))
+    items = ((key('a'), scal('a')), (key('dt'), ('ctor', I + 'Table', (tab(True, dt_kids),))), (key('t'), ('ctor', I + 'Table', (tab(False, ((key('t.x'), scal('t.x')),)),))),
+             (key('di'), ival(inl(True, di_kids))),
              (key('i'), ('ctor', I + 'Value', (('ctor', V + 'InlineTable', (inl(False, ((key('i.x'), scal('i.x')),)),)),))),
              (key('aot'), ('ctor', I + 'ArrayOfTables', (('struct', 'toml_edit::array_of_tables::ArrayOfTables', {'values': ()}),))), (key('none'), ('ctor', I + 'None')), (key('z'), scal('z')))
 
@@ -87,8 +92,10 @@ def r3_values_first(rep, facts):
                 marks(y, out)
         return out
     semantic = set()
-    for d, mk, want in (('toml_edit::table::Table', tab, [(['a'], 'Integer'), (['dt', 'dt.x'], 'Integer'), (['di', 'di.x'], 'Integer'), (['i'], 'InlineTable'), (['z'], 'Integer')]),
-                        ('toml_edit::inline_table::InlineTable', inl, [(['a'], 'Integer'), (['di', 'di.x'], 'Integer'), (['i'], 'InlineTable'), (['z'], 'Integer')])):
+    di_rows = [(['di', 'di.x'], 'Integer'), (['di', 'di.sub', 'di.sub.y'], 'Integer')]
+    for d, mk, want in (('toml_edit::table::Table', tab, [(['a'], 'Integer'), (['dt', 'dt.x'], 'Integer'), (['dt', 'dt.sub', 'dt.sub.y'], 'Integer'), (['dt', 'dt.di', 'dt.di.y'], 'Integer')] + di_rows +
+                         [(['i'], 'InlineTable'), (['z'], 'Integer')]),
+                        ('toml_edit::inline_table::InlineTable', inl, [(['a'], 'Integer')] + di_rows + [(['i'], 'InlineTable'), (['z'], 'Integer')])):
         if not facts.has_body(d + '::get_values'):
             continue
         b = facts.body(d + '::get_values')
@@ -242,6 +249,10 @@ def rules(rep, facts):
         from .rules_c12 import r1_fields
         r1_fields(rep, facts, pm.model(facts))
         rep.relabel('C12/R1', 'C06/R12', 'every printed date-time decodes on either route: ')
+    R13 = rep.rule('C06/R13', 'every table that has something to print gets its header, and its rows follow it: visit_table evaluated with the writes recorded for explicit / implicit '
+                   'tables holding nothing, a value, dotted-key values only or a sub-table only, at the root and under a path, as `[table]` and as `[[table]]` element', floor=30)
+    from .shared import visit_table_model
+    visit_table_model(rep, R13, facts)
     R8 = rep.rule('C06/R8', 'no order-breaking operation / unstable sort in the printers (the same structure always prints the same, valid header order)', floor=2)
     order_ops(rep, R8, facts)
 
